@@ -1,5 +1,6 @@
 """C04 — comments, blank lines and white space never change what is measured."""
 import glob
+import re
 import multiprocessing as mp
 import os
 import random
@@ -180,6 +181,13 @@ def run(tier, seed, replay=None):
         for i in range(n_gen):
             p = progen.generate(seed * 131 + i, lang, {"long_bodies": i % 3 == 0})
             items.append((f"generated:{seed * 131 + i}", p["text"]))
+        # programs whose code is ONE physical line (with and without a final line break): the insertions can only go above
+        # or below it (seeded change C04-11: a single-line fast path that ignores leading blank lines)
+        one = {"Python": "def add(a, b): return a + b", "JavaScript": "function add(a, b) { return a + b; }",
+               "TypeScript": "function add(a: number, b: number): number { return a + b; }",
+               "Java": "class A { int add(int a, int b) { return a + b; } }", "CSharp": "class A { int Add(int a, int b) { return a + b; } }"}
+        for j in range(4):
+            items.append((f"one-line:{j}", one.get(lang, "int add(int a, int b) { return a + b; }") + ("\n" if j % 2 else "")))
         for k in range(0, len(items), 8):
             jobs.append((lang, items[k:k + 8], seed * 977 + k, per_file))
     model_cases = []
@@ -297,6 +305,57 @@ def run(tier, seed, replay=None):
             else:
                 if res[0][1]:
                     chk.nontrivial.add(("edit", i))
+        # ---- the findings listing over several files: functions of EQUAL length in different files must keep their order
+        #      when comment / blank lines are inserted above one of them (seeded change C04-12: ties broken by line number)
+        import io
+        from rich.console import Console
+        from codelimit.common.report import format_markdown, format_text
+        for i in range(10 if tier == "quick" else 150):
+            rng = random.Random(seed * 13 + i)
+            n = rng.choice([31, 40, 61])
+            files = {}
+            for nm in rng.sample(["alpha.c", "beta.c", "gamma.c", "sub/delta.c"], rng.choice([2, 3])):
+                f0 = nm.split("/")[-1][:-2]
+                files[nm] = ["/* " + f0 + " */"] * rng.randint(0, 3) + [f"int {f0}(void) {{"] + ["  x = 1;"] * (n - 2) + ["}"]
+
+            def listing(fs):
+                d = os.path.join(tmp, f"find{i}")
+                shutil.rmtree(d, ignore_errors=True)
+                for nm, ls in fs.items():
+                    os.makedirs(os.path.dirname(os.path.join(d, nm)), exist_ok=True)
+                    open(os.path.join(d, nm), "w").write("\n".join(ls) + "\n")
+                cb = Scanner.scan_path(Path(d))
+                cb.aggregate()
+                rep = Report(cb)
+                units = [(u.file, u.measurement.unit_name, u.measurement.value) for u in rep.all_report_units_sorted_by_length_asc(30)]
+                out = []
+                for fmt in (format_text, format_markdown):
+                    buf = io.StringIO()
+                    con = Console(file=buf, width=10000, color_system=None)
+                    if fmt is format_text:
+                        fmt.print_findings(con, rep, True)
+                    else:
+                        fmt.print_findings(rep, con, True)
+                    out.append([w for line in buf.getvalue().splitlines() for w in re.findall(r"alpha|beta|gamma|delta", line)])
+                shutil.rmtree(d, ignore_errors=True)
+                return units, out
+            try:
+                before = listing(files)
+                victim = rng.choice(sorted(files))
+                mod = dict(files)
+                mod[victim] = [rng.choice(["", "// note", "/* c */", "   "])] * rng.choice([1, 5, 12]) + files[victim]
+                after = listing(mod)
+            except Exception as ex:
+                chk.violation({"files": {k: len(v) for k, v in files.items()}}, f"findings over several files raised {type(ex).__name__}: {ex}")
+                continue
+            chk.evaluations += 1
+            chk.count("findings listing over files with equally long functions, lines inserted above one")
+            if [(f, u, v) for f, u, v in before[0]] != [(f, u, v) for f, u, v in after[0]] or before[1] != after[1]:
+                chk.violation({"files": {k: "\n".join(v) for k, v in files.items()}, "inserted_in": victim},
+                              f"findings over {sorted(files)} (all functions {n} lines): inserting lines above the function of {victim} changes "
+                              f"the order of the listing from {before[0]} to {after[0]}")
+            elif before[0]:
+                chk.nontrivial.add(("find", i))
     finally:
         shutil.rmtree(tmp, ignore_errors=True)
     chk.samples = [c for _, _, c in model_cases[:4]]
